@@ -203,7 +203,11 @@ def build_nasty_dlis(rng):
             if n_ >= 4:
                 xr = rng.choice([xr, xr, [0, 1, 1] + list(range(3, n_)), [0, 2] + list(range(3, n_)) + [2 * (n_ - 1)], [0, 1, 2] + [k_ + 7 for k_ in range(3, n_)]])
                 fnos = rng.choice([fnos, fnos, [1, 3] + list(range(4, n_ + 1)) + [2 * n_ - 1], [1, 2, 3] + [k_ + 9 for k_ in range(4, n_ + 1)]])
-            types.append(dict(name=b'FT%d' % t, channels=chs, n=n_, xr=xr, fnos=fnos, description=rng.choice(NASTY_ASCII)))
+            types.append(dict(name=b'FT%d' % t, c=0, channels=chs, n=n_, xr=xr, fnos=fnos, description=rng.choice(NASTY_ASCII)))
+        if ntypes == 2 and rng.random() < 0.4:
+            # two COPIES of one frame object name (same origin and identifier, copy numbers 0 and 1): two frame types
+            for t, ty in enumerate(types):
+                ty['name'], ty['c'] = b'MAIN', t
         order = []
         for t, ty in enumerate(types):
             order += [t] * ty['n']
@@ -222,7 +226,7 @@ def build_nasty_dlis(rng):
             eflrs.append(rng.choice([GLg.origin_full(well=rng.choice(NASTY_ASCII), company=company, field=b'second origin'),
                                      GLg.simple_eflr(b'WELL-REFERENCE', [(b'PERMANENT-DATUM', 20, None, None)], [((1, 0, b'WR'), [[b'ground level']])])]))
             kinds.append(1)
-        eflrs += [GLg.channel_eflr(rng.sample(chans_all, len(chans_all)) if rng.random() < 0.6 else chans_all), GLg.frame_eflr([dict(name=ty['name'], channels=ty['channels'], description=ty['description']) for ty in types])]
+        eflrs += [GLg.channel_eflr(rng.sample(chans_all, len(chans_all)) if rng.random() < 0.6 else chans_all), GLg.frame_eflr([dict(name=ty['name'], c=ty['c'], channels=ty['channels'], description=ty['description']) for ty in types])]
         kinds += [3, 4]
         if rng.random() < 0.3:
             eflrs.append(GLg.simple_eflr(b'TOOL', [(b'DESCRIPTION', 20, None, None)], [((1, 0, b'T1'), [[rng.choice(NASTY_ASCII)]])]))
@@ -238,9 +242,9 @@ def build_nasty_dlis(rng):
             for c, ch in enumerate(types[t]['channels']):
                 for e in range(ch['dims'][0]):
                     data += c04.enc(ch['rc'], c04.value_of(ch['rc'], types[t]['xr'][r] if c == 0 else r, c, e))
-            payloads.append(GLg.iflr(types[t]['name'], types[t]['fnos'][r], data))
+            payloads.append(GLg.iflr(types[t]['name'], types[t]['fnos'][r], data, c=types[t]['c']))
             recs.append(dict(kind='I', type=0, enc=False))
-        truth.append(dict(eflrs=len(eflrs), types=[dict(name=ty['name'].decode(), n=ty['n'], description=ty['description'], fnos=ty['fnos'],
+        truth.append(dict(eflrs=len(eflrs), types=[dict(name=ty['name'].decode(), c=ty['c'], n=ty['n'], description=ty['description'], fnos=ty['fnos'],
                                                      xs=[float(c04.value_of(ty['channels'][0]['rc'], r_, 0, 0)) for r_ in ty['xr']]) for ty in types],
                           well=well, company=company, params=params))
     for rec, pl in zip(recs, payloads):
@@ -298,8 +302,8 @@ def check_index_xml(ctx, doc, logical_index, truth, case):
         if len(fas) != len(tr['types']):
             return 'logical file %d: %d FrameArray entries, the file has %d frame types' % (li, len(fas), len(tr['types']))
         for fa_el, ty, fa in zip(fas, tr['types'], lf.log_pass.frame_arrays if lf.has_log_pass else []):
-            if fa_el.get('I') != ty['name']:
-                return 'FrameArray %r, expected %r' % (fa_el.get('I'), ty['name'])
+            if fa_el.get('I') != ty['name'] or fa_el.get('C') != str(ty['c']):
+                return 'FrameArray %r copy %r, expected %r copy %r' % (fa_el.get('I'), fa_el.get('C'), ty['name'], ty['c'])
             want_d = ty['description'].decode('latin-1')
             if xmltrace.representable(want_d) and fa_el.get('description') != want_d:
                 return 'FrameArray %s description %r, the file holds %r' % (ty['name'], fa_el.get('description'), want_d)
